@@ -6,7 +6,7 @@ PROP = dict(
     theorems=['Fit.C02.C02_parses', 'Fit.C02.C02_datasize', 'Fit.C02.C02_header_crc', 'Fit.C02.C02_crc_whole_sequence_partial',
               'Fit.C02.C02_legacy_crc_witness', 'Fit.C02.C02_decodes',
               'Fit.C02.C02_wellformed_mixed', 'Fit.C02.C02_wellformed',
-              # FitProps/C02Bytes.lean (picked up by prop_modules: FitProps/C02<Suffix>.lean is built and audited with C02):
+              # FitProps/C02Typing.lean (picked up by prop_modules: FitProps/C02<Suffix>.lean is built and audited with C02):
               # the byte-stream hypothesis C02_ByteOK derived from the typing of the input
               'Fit.C02.C02_byteOK_of_typing', 'Fit.C02.C02_crc_whole_sequence_of_typing',
               'Fit.C02.C02_wellformed_mixed_of_typing', 'Fit.C02.C02_wellformed_of_typing', 'Fit.C02.C02_typing_needed'],
@@ -19,11 +19,11 @@ PROP = dict(
         "proved over the model: parseStream succeeds with one sequence per FIT value (C02_parses, via records_spec: the decoder's framing refines the spec's), data size exact, header CRC, file CRC = CRC of the whole sequence for 14-byte headers (crc_append_self), the SDK decoder accepts every successful encode (C02_decodes; like C01_wire_chain under Wire.msgsDescOK — no developer field written under a field description with an invalid base type, which the message validator guarantees: C01_e2e_validator_descs; the decoder rejects such a stream with errInvalidBaseType); the whole-stream statement through the SeqView offsets of a chain of any length: C02_wellformed (14-byte headers: FitFormat.WellFormed and one sequence per FIT value) and C02_wellformed_mixed (14- and 12-byte headers mixed: header CRC / file CRC over the whole sequence exactly for the 14-byte sequences, records-only file CRC for the 12-byte ones)",
     ],
     assumptions=["inputs satisfy FitOK (what validation lets through; C10)", "14-byte headers for the whole-sequence CRC (12-byte: KF-C02-legacy-crc)",
-                 "C02_wellformed_of_typing / C02_wellformed_mixed_of_typing / C02_crc_whole_sequence_of_typing (FitProps/C02Bytes.lean): that the encoder's OUTPUT is a byte stream (C02_ByteOK, the hypothesis hbytes of C02_wellformed / C02_wellformed_mixed) is no longer assumed - it is derived (C02_byteOK_of_typing, via E2E.encodeMsgs_bytes from the fresh encoder state). What remains is the byte typing of the INPUT, over the model's Nat: for every FIT value f of the chain, f.1.protoVer < 256 (FileHeader.ProtocolVersion is a byte; FitOK bounds only the header size and the profile version) and for every message m of f.2, Fit.E2E.MsgTyped m, i.e. every field number < 256, every developer field's number and developer data index < 256, every developer field's data bytes < 256 (field data bytes and base types are already in FitOK/MsgOK). True by type in the code (byte / []byte); not implied by FitOK: C02_typing_needed (field number 256 / protocol version 256 pass fitOKB and the model writes 256)"],
+                 "C02_wellformed_of_typing / C02_wellformed_mixed_of_typing / C02_crc_whole_sequence_of_typing (FitProps/C02Typing.lean): that the encoder's OUTPUT is a byte stream (C02_ByteOK, the hypothesis hbytes of C02_wellformed / C02_wellformed_mixed) is no longer assumed - it is derived (C02_byteOK_of_typing, via E2E.encodeMsgs_bytes from the fresh encoder state). What remains is the byte typing of the INPUT, over the model's Nat: for every FIT value f of the chain, f.1.protoVer < 256 (FileHeader.ProtocolVersion is a byte; FitOK bounds only the header size and the profile version) and for every message m of f.2, Fit.E2E.MsgTyped m, i.e. every field number < 256, every developer field's number and developer data index < 256, every developer field's data bytes < 256 (field data bytes and base types are already in FitOK/MsgOK). True by type in the code (byte / []byte); not implied by FitOK: C02_typing_needed (field number 256 / protocol version 256 pass fitOKB and the model writes 256)"],
 )
 
 TEXT = dict(
     technique='Lean 4 proof over the wire-level encoder model (data size, header CRC, whole-sequence CRC via the CRC residue lemma, acceptance by the decoder model) + the independent framing spec FitFormat evaluated by the Lean driver on the real encoder output',
     text='For every message list and option combination the model encoder writes a header whose data size is the exact record byte count, a correct header CRC and — for 14-byte headers — a file CRC equal to the CRC-16 of every preceding byte of the sequence; the decoder model accepts the result with checksums on (one sequence per FIT value). On the implementation the same is evaluated directly: the bytes written by the real encoder (4 writer kinds × 10 buffer sizes × chained files) must parse under the independent spec with correct CRCs and match the header/CRC stored back into the caller. 12-byte headers store a records-only CRC (known finding). C02_wellformed: for chains of any length with 14-byte headers, encodeChain is WellFormed under FitFormat (parses with nothing between or after sequences; headerCrcOk and fileCrcOk hold for every sequence view, evaluated on the whole stream through the view offsets) with seqs.length = fits.length; C02_wellformed_mixed: the same per sequence for mixed chains - headerCrcStrict/headerCrcOk always, fileCrcOk exactly for the sequences with a 14-byte header, and for a 12-byte header: no header CRC and stored file CRC = CRC-16 of the records only (what the code does; KF-C02-legacy-crc).',
-    note='Trusted: Lean kernel, FitFormat spec as written, harness/driver. The whole-stream statement is proved through the SeqView offsets of a chain (C02_wellformed, C02_wellformed_mixed; bookkeeping lemmas FitProps/C02ChainLemmas.lean); their byte-stream hypothesis C02_ByteOK is discharged from the byte typing of the input in FitProps/C02Bytes.lean (C02_wellformed_of_typing, C02_wellformed_mixed_of_typing). C02_wellformed_full (no restriction on the header size) stays a def: it is refuted for 12-byte headers by C02_legacy_crc_witness (open finding KF-C02-legacy-crc).',
+    note='Trusted: Lean kernel, FitFormat spec as written, harness/driver. The whole-stream statement is proved through the SeqView offsets of a chain (C02_wellformed, C02_wellformed_mixed; bookkeeping lemmas FitProps/C02ChainLemmas.lean); their byte-stream hypothesis C02_ByteOK is discharged from the byte typing of the input in FitProps/C02Typing.lean (C02_wellformed_of_typing, C02_wellformed_mixed_of_typing). C02_wellformed_full (no restriction on the header size) stays a def: it is refuted for 12-byte headers by C02_legacy_crc_witness (open finding KF-C02-legacy-crc).',
 )
